@@ -75,6 +75,8 @@ def run(ctx):
         conds.append(xh.Cond(f"merge 2 notices first holder #{h0}", "C20.py", "_merge", {"m_n": 2, "fix_h0": h0}, timeout=tmo * 2, twin="_merge_reach"))
     for pf in (["spdx", "string-c"], ["symbol", "spdx-string-symbol"], ["spdx", "symbol", "string-c"]) if tier == "quick" else (["spdx", "string-c", "symbol", "spdx-string-symbol"],):
         conds.append(xh.Cond(f"merge 3 notices of one holder, prefixes {pf}", "C20.py", "_merge", {"m_n": 3, "m_same_holder": True, "m_prefixes": pf}, timeout=tmo * 3, twin="_merge_reach"))
+    for pf in (["spdx"], ["string-c", "symbol"]) if tier == "quick" else (["spdx"], ["spdx", "string-c", "symbol"]):
+        conds.append(xh.Cond(f"merge 3 notices: holder A, another holder, holder A again, prefixes {pf}", "C20.py", "_merge", {"m_n": 3, "m_aba": True, "m_prefixes": pf}, timeout=tmo * 3, twin="_merge_reach"))
     conds.append(xh.Cond("get_year: 0-3 --year options in any order, --exclude-year", "C20.py", "_year", {}, timeout=tmo, twin="_year_reach"))
     ctx.functions_encoded = [
         "reuse.cli.annotate.get_year",
@@ -83,7 +85,7 @@ def run(ctx):
     ]
     ctx.bounds = {
         "round trip": f"10 prefixes x year forms {years} x holders {carriers} with ONE free character (any code point U+0000..U+10FFFF except LF and surrogates) at the start, middle or end; TWO free characters at the end" + (" and, split by ranges of the first one, at the start/middle for 3 prefixes" if tier == "thorough" else " for 4 prefixes"),
-        "merge": "2 notices over 4 holders x 4 prefixes x 5 year forms (complete); 3 notices of one holder",
+        "merge": "2 notices over 4 holders x 4 prefixes x 5 year forms (complete); 3 notices of one holder; 3 notices holder A / another holder / holder A again",
     }
     ctx.stubs = ["module-level pattern objects replaced by PyRe(real pattern); re.match in _parse_copyright_year routed through PyRe", "merge_copyright_lines is given a list instead of a set (it only iterates)"]
     ctx.outside = ["symbolic year digits (every such condition exceeded 900 s; year forms are concrete)", "holders with more than two free characters", "holders that begin with four digits when no year is given (inherently ambiguous)"]
